@@ -81,10 +81,10 @@ theorem sigCheck_isSome_iff (rs : RetSig) (sig : Option (List Char)) :
       exact this.symm
   | str r =>
     simp only [sigCheck, declared]
-    by_cases hk : r = C08Client.noCheckReturn.toList
-    · simp [hk]
-    · have hk' : (r == C08Client.noCheckReturn.toList) = false := by simpa using hk
-      simp only [hk', hk, if_false, Bool.false_eq_true]
+    cases hk : isSentinel r with
+    | true => simp
+    | false =>
+      simp only [if_false, Bool.false_eq_true]
       cases r with
       | nil =>
         by_cases ht : truthyStr sig = true
